@@ -549,7 +549,13 @@ class LexInterp:
                 s = s.clone()
                 if isinstance(tgt, ast.Name):
                     if self.alias.get(self.stack[-1]) == tgt.id:
-                        if not self.is_cursor(n.value) and self.pos_of(n.value, s) != s.c:
+                        off = self.pos_of(n.value, s)
+                        if not self.is_cursor(n.value) and isinstance(off, int) and off > s.c:
+                            # `pos = pos + k`: the alias moves forward over characters that were read
+                            s = self.consume(s, off - s.c, "%s:%d" % (self.stack[-1], n.lineno))
+                            if s is None:
+                                continue
+                        elif not self.is_cursor(n.value) and off != s.c:
                             raise Unsupported("cursor alias re-bound at line %s" % n.lineno)
                     else:
                         s.env[tgt.id] = v
